@@ -13,6 +13,12 @@ for x in res['fails']:
     g['n'] += 1; g['props'] |= set(x['props'])
 for key, g in sorted(groups.items(), key=lambda kv: -kv[1]['n']):
     x = g['ex']
+    if isinstance(x['ops'], dict):
+        print('%4d %s %s' % (g['n'], sorted(g['props']), key))
+        if '-v' in sys.argv:
+            print('       case:', x['ops']['name'], [[o['op'] for o in p['ops']] for p in x['ops']['procs']], x['ops']['schedule'])
+            print('       exp:', json.dumps(x['expected'])[:400]); print('       got:', json.dumps(x['observed'])[:600])
+        continue
     ops = ' ; '.join('%s(%s)' % (o['op'], ','.join(str(v) for k, v in o.items() if k in ('coll','key','exp','casc','body','opt','cb','path','val','db','pres','newc') and v not in ('', False, '-', 'zero', '0', 'hi') ) + (',' + '+'.join(n + '=' + a['t'] + ('c' if a['mc'] else '') + ('h' if a['mh'] else '') for n, a in o['sets'].items() if a['t'] != '-') if any(a['t'] != '-' for a in o['sets'].values()) else '') + (',del:' + '+'.join(o['dels']) if o['dels'] else '')) for o in x['ops'])
     print('%4d %s %s' % (g['n'], sorted(g['props']), key))
     if '-v' in sys.argv:
